@@ -851,7 +851,11 @@ func main() {
 	}
 	if *doShutdown {
 		for _, sc := range []string{"plain", "race-timeout", "plain", "race-timeout"} {
-			o.Put(runShutdown(sc))
+			rec := runShutdown(sc)
+			if rec.Setup != "" {
+				rec = runShutdown(sc) // the hosts could not be set up (connect timeout): once more with fresh hosts
+			}
+			o.Put(rec)
 		}
 	}
 	if *heldRounds > 0 {
